@@ -4,7 +4,7 @@
 From Coq Require Import Sorting.Permutation Sorting.Sorted.
 From CKC Require Import Base.Prelude Base.Reflect Base.SortN Spec.Layout Spec.Poker.
 From CKC Require Import Model.Card Model.Hands Model.Five Model.HandRank.
-From CKC Require Import Proofs.CardFacts Proofs.SortFacts Proofs.BitFacts Proofs.FiveFacts Proofs.PokerFacts
+From CKC Require Import Proofs.CardBase Proofs.SortFacts Proofs.BitFacts Proofs.FiveFacts Proofs.PokerFacts
   Proofs.FipTotal.
 From CKC Require Export Proofs.Total.
 From CKC Require Import Gen.Consts Gen.Tables Gen.Decks.
